@@ -311,7 +311,10 @@ Guards (all decidable, all explicit):
   the right spine of the second slice with `to`'s ancestor in the *original* document; the pair joined
   it with the node the first step had already merged that ancestor into — only the chain
   `second-slice node ~ merged node ~ to's ancestor` was checked.  (`compatTransB` holds for the bundled
-  schemas; the harness evaluates it through the driver op `compatTrans`.)
+  schemas; the harness evaluates it through the driver op `compatTrans`.)  The guard is needed for the
+  second `merge` branch (deleting backwards: `merge_needs_guard`); in the first branch one of the two
+  relations composed is the identity at every level, so the statement should hold there without it — not
+  proved (a search over merged pairs in a non-transitive schema found no failure in that branch).
 * the document is valid and in normal form, the two slices are in normal form and valid payloads
   (`openValid`, C01);
 * `ha1`, `ha2`: the ends of the content each step inserted do not fall between the halves of a surrogate
